@@ -424,3 +424,71 @@ def ob_inproc_two_sends_slow_lookups(wk: int, T: int, lat: int, a1: int, d2: int
     bad = _why_slow(o, REF[("inproc", wk)])
     _debug(f"slow lookups wk={wk} T={T} lat={lat} a1={a1} d2={d2} early={early}", bad)
     return not bad
+
+
+# ----------------------------------------------------------------------------------------------- idle AFTER a retry waited out its delay
+class _OneDelay:
+    """user retry policy (environment): the first failure is retried after `delay` seconds"""
+
+    delay: float = 1.0
+
+    def next(self, elapsed_time: float, attempts: int, error: Exception) -> Optional[float]:
+        return float(self.delay) if attempts <= 1 else None
+
+
+_RETRY_POLICY36 = _OneDelay()
+
+
+class RetryThenWaitWF(Workflow):
+    """the step fails once, is retried after x seconds (while that retry sits in the timer heap the run must NOT be announced idle), and then
+    waits for an external event for good: from then on the run IS idle"""
+
+    def __init__(self, **kw: Any) -> None:
+        super().__init__(**kw)
+        self.calls: List[str] = []
+
+    @step(retry_policy=_RETRY_POLICY36)
+    async def begin(self, ctx: Context, ev: StartEvent) -> StopEvent:
+        self.calls.append("begin")
+        if self.calls.count("begin") == 1:
+            raise RuntimeError("first attempt fails")
+        a = await ctx.wait_for_event(ExtEv, waiter_id="q", timeout=None)
+        return StopEvent(result=a.n)
+
+
+@obligation(quick=240, thorough=600, partitions_quick=[f"T == {t}" for t in (1, 2)], partitions_thorough=[f"T == {t} and x == {x}" for t in (1, 2, 3) for x in (1, 2, 3)],
+            what="in-process stack: a run whose step failed, waited out a retry delay x (not idle meanwhile) and then parks in wait_for_event for "
+                 "good: idle_timeout after it parked it IS released — no live control loop, handler marked idle, status still running — and an "
+                 "event sent afterwards (send == 1) reloads it and completes it",
+            bounds={"idle_timeout T": "1..2 (thorough 3)", "retry delay x": "1..3", "event after the release": "none / one"})
+def ob_inproc_idle_after_a_retry_is_released(T: int, x: int, send: int) -> bool:
+    """
+    pre: 1 <= T <= TRW36 and 1 <= x <= 3 and 0 <= send <= 1
+    post: _
+    """
+    T, x, send = concrete(T, 1, 3), concrete(x, 1, 3), concrete(send, 0, 1)
+    _RETRY_POLICY36.delay = x
+    at = x + T + 3
+    o = run_stack("inproc", T, ([(at, 9)] if send else []), lambda: RetryThenWaitWF(timeout=None), _mk_event, early=True, probe_to=0,
+                  settle=(2 if send else x + T + 3), horizon=0)
+    bad: List[str] = []
+    if o["errors"] or o["loop_exceptions"]:
+        bad.append(f"errors {o['errors']} {o['loop_exceptions']}")
+    if send:
+        if o["final"]["status"] != "completed" or o["result"] != 9:
+            bad.append(f"after the event: {o['final']['status']}/{o['result']}, wanted completed/9")
+        # just before the event (x + T + 2.5) the run had been released
+        last = o["pre_send"][0] if o["pre_send"] else None     # the run's condition just before the event was sent
+        if last is None or not (last["live"] == 0 and last["idle_since"] is not None):
+            bad.append(f"not released before the event arrived: {last}")
+    else:
+        f = o["final"]
+        if f["status"] != "running":
+            bad.append(f"handler status {f['status']} (the run waits for an event)")
+        elif not (f["live"] == 0 and f["idle_since"] is not None):
+            bad.append(f"idle for good but not released / not marked idle at t={f['at']}: {f}")
+    _debug(f"idle after retry T={T} x={x} send={send}", bad)
+    return not bad
+
+
+TRW36 = B(2, 3)
